@@ -92,37 +92,22 @@ func subsetDiff(exp, obs *idl.Val, path string) string {
 		if len(exp.L) != len(obs.L) {
 			return fmt.Sprintf("%s: want %d elements, got %d", path, len(exp.L), len(obs.L))
 		}
-		// order-insensitive: each expected element must match a distinct observed one
-		used := make([]bool, len(obs.L))
-		for i, x := range exp.L {
-			found := false
-			for j, y := range obs.L {
-				if !used[j] && subsetDiff(x, y, "") == "" {
-					used[j], found = true, true
-					break
-				}
-			}
-			if !found {
-				return fmt.Sprintf("%s: element #%d %s not found", path, i, vlib.Trunc(x.Canon(), 120))
-			}
+		// order-insensitive: the expected elements must match distinct observed ones (an expected struct is a
+		// subset pattern, so a greedy assignment could give a specific observed element to an unspecific
+		// expected one: search for a complete assignment)
+		if i := c06Assign(len(exp.L), func(i, j int) bool { return subsetDiff(exp.L[i], obs.L[j], "") == "" }); i >= 0 {
+			return fmt.Sprintf("%s: element #%d %s not found", path, i, vlib.Trunc(exp.L[i].Canon(), 120))
 		}
 		return ""
 	case "map":
 		if len(exp.M) != len(obs.M) {
 			return fmt.Sprintf("%s: want %d entries, got %d", path, len(exp.M), len(obs.M))
 		}
-		used := make([]bool, len(obs.M))
-		for _, e := range exp.M {
-			found := false
-			for j, o := range obs.M {
-				if !used[j] && subsetDiff(e[0], o[0], "") == "" && subsetDiff(e[1], o[1], "") == "" {
-					used[j], found = true, true
-					break
-				}
-			}
-			if !found {
-				return fmt.Sprintf("%s: entry %s not found", path, vlib.Trunc(e[0].Canon()+":"+e[1].Canon(), 160))
-			}
+		if i := c06Assign(len(exp.M), func(i, j int) bool {
+			return subsetDiff(exp.M[i][0], obs.M[j][0], "") == "" && subsetDiff(exp.M[i][1], obs.M[j][1], "") == ""
+		}); i >= 0 {
+			e := exp.M[i]
+			return fmt.Sprintf("%s: entry %s not found", path, vlib.Trunc(e[0].Canon()+":"+e[1].Canon(), 160))
 		}
 		return ""
 	case "double":
@@ -465,4 +450,33 @@ func c06Replay(u *harness.Unit) vlib.Replay {
 	}
 	rp["options.txt"] = strings.Join(u.Opts, ",") + "\n"
 	return rp
+}
+
+// c06Assign looks for a one-to-one assignment of n expected items to n observed ones under ok (augmenting
+// paths).  It returns -1 when there is one, else the index of an expected item that cannot be placed.
+func c06Assign(n int, ok func(i, j int) bool) int {
+	owner := make([]int, n) // observed j -> expected i
+	for j := range owner {
+		owner[j] = -1
+	}
+	var try func(i int, seen []bool) bool
+	try = func(i int, seen []bool) bool {
+		for j := 0; j < n; j++ {
+			if seen[j] || !ok(i, j) {
+				continue
+			}
+			seen[j] = true
+			if owner[j] < 0 || try(owner[j], seen) {
+				owner[j] = i
+				return true
+			}
+		}
+		return false
+	}
+	for i := 0; i < n; i++ {
+		if !try(i, make([]bool, n)) {
+			return i
+		}
+	}
+	return -1
 }
